@@ -20,7 +20,8 @@ func c04(x *ctx) {
 	modes := []string{"--suggest", "--hover", "--define"}
 	corpus := gen.Corpus(engine.RepoRoot)
 	small := gen.SortBySize(corpus)
-	progs := append(gen.Generated(), corpus...)
+	progs := append(gen.Generated(), gen.OddLiteralPrograms()...)
+	progs = append(progs, corpus...)
 	type cand struct {
 		c   *engine.Case
 		res *engine.Result
